@@ -15,6 +15,10 @@ CHILD = {
     'f1b': [['D', 1], ['RAISE', 'IndexError', 'f1b']],
     'f2': [['D', 2], ['RAISE', 'ValueError', 'f2']],
     'priv1': [['D', 1], ['RAISE', 'AssertionError', 'priv1']],
+    # distinct exception objects that compare equal
+    'fe1': [['D', 1], ['RAISE', 'EqErr', 'fe1']],
+    'fe1b': [['D', 1], ['RAISE', 'EqErr', 'fe1b']],
+    'fe2': [['D', 2], ['RAISE', 'EqErr', 'fe2']],
     # proper subclasses of the privileged types, directly and through a nested scope
     'priv1s': [['D', 1], ['RAISE', 'Mismatch', 'priv1s']],
     'priv1k': [['D', 1], ['RAISE', 'Abort', 'priv1k']],
@@ -61,6 +65,9 @@ BODIES = {
     'awaitf1': [['D', 1], ['INSTANT'], ['AWAIT', 'c1_victf'], ['D', 1]],
     # the owner subscribes a second time to the notification object of its own until block (kind untilf) and leaves that
     # inner block again; the outer block then ends for another reason
+    # the body is woken (for another reason) behind a child that fails in that time step, and ends without another break point
+    'i_d1': [['INSTANT'], ['D', 1]],
+    'i_d1_raise': [['INSTANT'], ['D', 1], ['RAISE', 'IndexError', 'body']],
     'inuntil': [['UNTIL', 'in0', ['F', 'stop'], [['INSTANT']]]],
     'inuntil_d2': [['UNTIL', 'in0', ['F', 'stop'], [['INSTANT']]], ['D', 2]],
     'inuntil_raise0': [['UNTIL', 'in0', ['F', 'stop'], [['INSTANT']]], ['INSTANT'], ['RAISE', 'IndexError', 'body']],
@@ -103,12 +110,12 @@ def rename(script, i):
 def cases(tier):
     thorough = tier == 'thorough'
     out = []
-    SPECIAL = ('vspawn1', 'vspawn2', 'bare2', 'bareev', 'bareflag', 'bareinst')
+    SPECIAL = ('vspawn1', 'vspawn2', 'bare2', 'bareev', 'bareflag', 'bareinst', 'fe1', 'fe1b', 'fe2')
     singles = [k for k in CHILD if k not in ('vict', 'killer', 'awaitv', 'victf', 'awaitf', 'awaitf1') + SPECIAL]
     pairs_a = ['d1', 'd2', 'f0', 'f1', 'f1b', 'f2', 'priv1', 'nest_fail', 'nest_slow', 'late1', 'waiter', 'finspawn', 'tick',
                'after2', 'at2', 'finraise']
     tri = ['d2', 'f1', 'f1b', 'nest_fail', 'waiter', 'tick'] if thorough else ['d2', 'f1', 'f1b', 'tick']
-    bodies = [b for b in BODIES if b != 'awaitf1' and not b.startswith('inuntil')]
+    bodies = [b for b in BODIES if b != 'awaitf1' and not b.startswith('inuntil') and not b.startswith('i_d1')]
     kinds = list(KINDS)
     def vols(ck):
         return (False, True) if ck in VOLATILE else (False,)
@@ -168,6 +175,16 @@ def cases(tier):
                     for other in ('d1', 'f1', 'tick', 'd2'):
                         out.append(program(kind, [(b, v), (other, other == 'tick')], body))
                         out.append(program(kind, [(other, other == 'tick'), (b, v)], body))
+    # failures that compare equal; a child failing just ahead of the body's own wake-up
+    for kind in ('scope', 'until2', 'untilf'):
+        for body in ('none', 'd2', 'raise1', 'i_d1'):
+            for kids in (('fe1', 'fe1b'), ('fe1', 'fe1b', 'fe2'), ('fe1', 'f1', 'fe1b'), ('fe1', 'd2'), ('fe1', 'nest_fail', 'fe1b')):
+                out.append(program(kind, [(k, False) for k in kids], body))
+    for kind in kinds:
+        for body in ('i_d1', 'i_d1_raise'):
+            for kids in ([('f1', False)], [('f1', False), ('f1b', False)], [('d1', False), ('f1', False)], [('f1', False), ('tick', True)],
+                         [('priv1', False)], [('nest_fail', False)], [('f1', True)], [('d1', False)], [('f2', False), ('d1', False)]):
+                out.append(program(kind, kids, body))
     # volatile children that fail - alone (a scope without regular children), in the time step in which the body ends, next to
     # regular children
     for kind in kinds:
